@@ -298,6 +298,11 @@ func (p *pathCtx) path(e ast.Expr) string {
 		if f := callee(p.info, x); f != nil {
 			if se, ok := unparen(x.Fun).(*ast.SelectorExpr); ok {
 				if _, isSel := p.info.Selections[se]; isSel {
+					// Token.Is(kind) with no value list is the comparison `tok.Kind == kind` (see isKindTest): one
+					// canonical form for `if tok.Is(K)` and `switch tok.Kind { case K: }`
+					if len(args) == 1 && isKindTest(f) {
+						return "(" + p.path(se.X) + ".Kind == " + args[0] + ")"
+					}
 					return p.path(se.X) + "." + f.Name() + "(" + strings.Join(args, ", ") + ")"
 				}
 			}
@@ -677,4 +682,26 @@ func parentMap(root ast.Node) map[ast.Node]ast.Node {
 		return true
 	})
 	return pm
+}
+
+// isKindTest: f is a method `Is(kind K, values ...string) bool` on a struct with a field Kind of type K — the
+// repository's Token.Is, which for an empty value list answers `kind == t.Kind`.
+func isKindTest(f *types.Func) bool {
+	if f.Name() != "Is" {
+		return false
+	}
+	sig, ok := f.Type().(*types.Signature)
+	if !ok || sig.Recv() == nil || !sig.Variadic() || sig.Params().Len() != 2 {
+		return false
+	}
+	st := structOf(sig.Recv().Type())
+	if st == nil {
+		return false
+	}
+	for i := 0; i < st.NumFields(); i++ {
+		if st.Field(i).Name() == "Kind" && types.Identical(st.Field(i).Type(), sig.Params().At(0).Type()) {
+			return true
+		}
+	}
+	return false
 }
